@@ -50,21 +50,37 @@ type watch struct {
 
 type State struct {
 	heap map[string]string
+	hac  map[string]string // allocation counter when the key was last written (bounds the refs stored under it)
 	gen  int
 	ac   string
 }
 
 func (s *State) clone() *State {
-	n := &State{heap: make(map[string]string, len(s.heap)), gen: s.gen, ac: s.ac}
+	n := &State{heap: make(map[string]string, len(s.heap)), hac: make(map[string]string, len(s.hac)), gen: s.gen, ac: s.ac}
 	for k, v := range s.heap {
 		n.heap[k] = v
 	}
+	for k, v := range s.hac {
+		n.hac[k] = v
+	}
 	return n
+}
+
+// acOfKey: every ref stored under the key was allocated before this counter value.
+func (fc *FnCtx) acOfKey(st *State, key string) string {
+	if a, ok := st.hac[key]; ok {
+		return a
+	}
+	if a := fc.gens[st.gen].ac; a != "" {
+		return a
+	}
+	return st.ac
 }
 
 type genInfo struct {
 	conds []string
 	gens  []int
+	ac    string // base generations: allocation counter when the generation began
 }
 
 type edge struct{ from, to *ssa.BasicBlock }
@@ -126,6 +142,8 @@ type FnCtx struct {
 	localRefs map[string]bool
 	splits    []string
 	splitAt   int
+	havocked  []string
+	peel      map[string][2]string
 }
 
 type loopFrame struct {
@@ -370,17 +388,83 @@ func (fc *FnCtx) heapGet(st *State, key, sort string) string {
 
 func (fc *FnCtx) heapSet(st *State, key, sort, term string) {
 	fc.keySort[key] = sort
-	st.heap[key] = fc.def("h", sort, term)
+	n := fc.def("h", sort, term)
+	st.heap[key] = n
+	st.hac[key] = st.ac
+	// remember "n = store(arr, ref, _)" so that writes to objects allocated by this function can be peeled off
+	if strings.HasPrefix(term, "(store ") {
+		if parts := splitSexp(term[len("(store ") : len(term)-1]); len(parts) == 3 {
+			if fc.peel == nil {
+				fc.peel = map[string][2]string{}
+			}
+			fc.peel[n] = [2]string{parts[0], parts[1]}
+		}
+	}
+}
+
+// splitSexp splits the top-level items of a space-separated s-expression list.
+func splitSexp(s string) []string {
+	var out []string
+	d := 0
+	start := -1
+	inBar := false
+	for i := 0; i < len(s); i++ {
+		c := s[i]
+		if c == '|' {
+			inBar = !inBar
+		}
+		if inBar {
+			if start < 0 {
+				start = i
+			}
+			continue
+		}
+		switch c {
+		case '(':
+			if d == 0 && start < 0 {
+				start = i
+			}
+			d++
+		case ')':
+			d--
+		case ' ':
+			if d == 0 && start >= 0 {
+				out = append(out, s[start:i])
+				start = -1
+			}
+		default:
+			if start < 0 {
+				start = i
+			}
+		}
+	}
+	if start >= 0 {
+		out = append(out, s[start:])
+	}
+	return out
+}
+
+// peelFresh strips stores at refs allocated by this function; ok reports whether the entry version of the key was reached.
+func (fc *FnCtx) peelFresh(name string) (string, bool) {
+	for {
+		p, ok := fc.peel[name]
+		if !ok || !(fc.localRefs[p[1]] || p[1] == "!merged") {
+			break
+		}
+		name = p[0]
+	}
+	return name, strings.HasPrefix(name, "|H0:")
 }
 
 func (fc *FnCtx) havocAll(st *State) {
-	fc.gens = append(fc.gens, &genInfo{})
-	st.gen = len(fc.gens) - 1
-	st.heap = map[string]string{}
 	// allocation counter only grows
 	nac := fc.fresh("ac", sInt)
 	fc.assume(sx(">=", nac, st.ac))
 	st.ac = nac
+	fc.gens = append(fc.gens, &genInfo{ac: nac})
+	st.gen = len(fc.gens) - 1
+	st.heap = map[string]string{}
+	st.hac = map[string]string{}
 }
 
 func arrSort(idx, elem string) string { return fmt.Sprintf("(Array %s %s)", idx, elem) }
@@ -393,7 +477,7 @@ func (fc *FnCtx) mergeStates(conds []string, sts []*State) *State {
 	if len(sts) == 1 {
 		return sts[0].clone()
 	}
-	out := &State{heap: map[string]string{}}
+	out := &State{heap: map[string]string{}, hac: map[string]string{}}
 	sameGen := true
 	for _, s := range sts[1:] {
 		if s.gen != sts[0].gen {
@@ -429,19 +513,73 @@ func (fc *FnCtx) mergeStates(conds []string, sts []*State) *State {
 			t = ite(conds[i], fc.heapGet(sts[i], k, srt), t)
 		}
 		out.heap[k] = fc.def("hm", srt, t)
+		// if every incoming version peels (through writes at locally allocated refs) to the same array, so does the merge
+		if n := out.heap[k]; fc.peel != nil {
+			base := ""
+			same := true
+			for _, s := range sts {
+				p, _ := fc.peelFresh(fc.heapGet(s, k, srt))
+				if base == "" {
+					base = p
+				} else if p != base {
+					same = false
+				}
+			}
+			if same && base != "" && base != n {
+				fc.peel[n] = [2]string{base, "!merged"}
+			}
+		}
 	}
 	ac := sts[len(sts)-1].ac
 	for i := len(sts) - 2; i >= 0; i-- {
 		ac = ite(conds[i], sts[i].ac, ac)
 	}
 	out.ac = fc.def("ac", sInt, ac)
+	for _, k := range ks {
+		same := true
+		for _, s := range sts[1:] {
+			if fc.acOfKey(s, k) != fc.acOfKey(sts[0], k) {
+				same = false
+			}
+		}
+		if same {
+			out.hac[k] = fc.acOfKey(sts[0], k)
+		} else {
+			out.hac[k] = out.ac
+		}
+	}
+	if !sameGen {
+		fc.gens[out.gen].ac = out.ac
+	}
 	return out
 }
 
 // load reads a value of type loc.Ty from the location.
+// refBound: heap invariant of the entry state: every allocation id stored in the heap is below ac0.
+func (fc *FnCtx) refBound(arr string, mem bool) {
+	if !strings.HasPrefix(arr, "|H0:") || fc.declared["refbound:"+arr] {
+		return
+	}
+	fc.declared["refbound:"+arr] = true
+	if mem {
+		fc.assumeGlobal(fmt.Sprintf("(forall ((i!q Int) (j!q (_ BitVec 64))) (! (< (select (select %s i!q) j!q) ac0) :pattern ((select (select %s i!q) j!q))))", arr, arr))
+	} else {
+		fc.assumeGlobal(fmt.Sprintf("(forall ((i!q Int)) (! (< (select %s i!q) ac0) :pattern ((select %s i!q))))", arr, arr))
+	}
+}
+
 func (fc *FnCtx) load(st *State, loc *Loc) V {
 	v := V{Ty: loc.Ty}
 	cs := fc.e.comps(loc.Ty)
+	for _, c := range cs {
+		if c.Ref {
+			if loc.Kind == locField {
+				fc.refBound(fc.heapGet(st, loc.S+"."+loc.Pre+c.Suf, fieldSort(c.Sort)), false)
+			} else {
+				fc.refBound(fc.heapGet(st, fc.e.memKey(loc.Ty)+"."+c.Suf, memSort(c.Sort)), true)
+			}
+		}
+	}
 	switch loc.Kind {
 	case locField:
 		for _, c := range cs {
@@ -534,6 +672,11 @@ func (fc *FnCtx) strLit(s string) string {
 
 // wf returns the type invariant of a symbolic value.
 func (fc *FnCtx) wf(v V, st *State) string {
+	return fc.wfAc(v, st.ac)
+}
+
+func (fc *FnCtx) wfAc(v V, acTerm string) string {
+	st := &State{ac: acTerm}
 	t := v.Ty
 	if t == nil {
 		return "true"
@@ -568,7 +711,7 @@ func (fc *FnCtx) wf(v V, st *State) string {
 		for i := 0; i < u.NumFields(); i++ {
 			ft := u.Field(i).Type()
 			n := len(fc.e.comps(ft))
-			cs = append(cs, fc.wf(V{Ty: ft, T: v.T[off : off+n]}, st))
+			cs = append(cs, fc.wfAc(V{Ty: ft, T: v.T[off : off+n]}, acTerm))
 			off += n
 		}
 		return and(cs...)
@@ -578,7 +721,7 @@ func (fc *FnCtx) wf(v V, st *State) string {
 		for i := 0; i < u.Len(); i++ {
 			ft := u.At(i).Type()
 			n := len(fc.e.comps(ft))
-			cs = append(cs, fc.wf(V{Ty: ft, T: v.T[off : off+n]}, st))
+			cs = append(cs, fc.wfAc(V{Ty: ft, T: v.T[off : off+n]}, acTerm))
 			off += n
 		}
 		return and(cs...)
